@@ -1,6 +1,6 @@
 package main
 
-// rc new pxr <k>: a Poll is in flight on the transport of one subscription when the client is subscribed
+// rc new pxr <k> [<where>]: a Poll is in flight on the transport of one subscription when the client is subscribed
 // again (what client.Reconnect does after every ended attempt) and then closed.
 //
 //	1. BaseClient.Subscribe #1 (Poll query) on transport 1: the sync marker, Subscribe returns nil;
@@ -11,11 +11,22 @@ package main
 //	4. BaseClient.Close() is called and returns;
 //	5. the handler is let go.
 //
+// <where> (default mid) says when Close is called relative to the second Subscribe:
+//
+//	mid     as above (Subscribe #2, then Close);
+//	before  Close is called instead of the second Subscribe, which is then not made (step 3 dropped);
+//	none    no second Subscribe (the same calls as before: kept as a separate spelling of the scenario);
+//	after   Close is called and returns, THEN Subscribe #2 (steps 4, 3): Subscribe resets c.closed
+//	        (client.go:146), so the Poll caller goes on delivering — outside the hypothesis of the property
+//	        (theorem C18Resub.resubscribe_after_close_reopens), recorded as `reopened`, not a failure.
+//
 // C18: "after Close returns at most the notifications of one further received message are delivered" —
-// whichever transport they were received on.  The observation is the monitor's verdict only: pxr=ok, or
-// what failed (deadline: some call did not return; afterclose=<n>: n > 1 updates reached the handler
-// after Close had returned).  Found necessary by seeded change c18_seed10 (run honouring `closed` only for
-// the currently installed Impl).
+// whichever transport they were received on.  Observation: pxr=<verdict> after=<n> total=<m> with n the
+// updates of the poll answer that entered the handler after Close had returned, m all of them, verdict ok
+// (n <= 1), afterclose (n > 1), reopened (n > 1 for `after`), or pxr=deadline-<call> when some call did not
+// return.  The model side (lean/Driver/RC.lean: pxr) computes the same three values from the LTS of
+// lean/Gnmi/Model/ClientResub.lean under this schedule.  Found necessary by seeded change c18_seed10 (run
+// honouring `closed` only for the currently installed Impl).
 
 import (
 	"context"
@@ -76,7 +87,14 @@ var pxrNo int32
 
 func (c *rcComp) pxrRun(args []string) string {
 	k, err := strconv.Atoi(args[2])
-	if err != nil || k < 1 || k > 40 {
+	if err != nil || k < 1 || k > 40 || strconv.Itoa(k) != args[2] {
+		return "bad-scenario"
+	}
+	where := "mid"
+	if len(args) == 4 {
+		where = args[3]
+	}
+	if where != "mid" && where != "before" && where != "none" && where != "after" {
 		return "bad-scenario"
 	}
 	rcRunMu.Lock()
@@ -97,6 +115,7 @@ func (c *rcComp) pxrRun(args []string) string {
 		firstOnce  sync.Once
 		closedDone int32
 		after      int32
+		total      int32
 	)
 	q := client.Query{
 		Addrs:   []string{"pxr"},
@@ -107,6 +126,7 @@ func (c *rcComp) pxrRun(args []string) string {
 			if !ok || len(u.Path) == 0 || u.Path[0] != "polled" {
 				return nil
 			}
+			atomic.AddInt32(&total, 1)
 			if atomic.LoadInt32(&closedDone) == 1 {
 				atomic.AddInt32(&after, 1)
 			}
@@ -151,14 +171,20 @@ func (c *rcComp) pxrRun(args []string) string {
 	case <-time.After(deadline):
 		return fail("deadline-poll-never-delivered")
 	}
-	impls[1].ch <- client.Sync{}
-	if !within(func() { bc.Subscribe(context.Background(), q, typ) }) {
+	sub2 := func() bool {
+		impls[1].ch <- client.Sync{}
+		return within(func() { bc.Subscribe(context.Background(), q, typ) })
+	}
+	if where == "mid" && !sub2() {
 		return fail("deadline-subscribe-2")
 	}
 	if !within(func() { bc.Close() }) {
 		return fail("deadline-close")
 	}
 	atomic.StoreInt32(&closedDone, 1)
+	if where == "after" && !sub2() {
+		return fail("deadline-subscribe-2")
+	}
 	close(gate)
 	select {
 	case <-pollDone:
@@ -166,9 +192,15 @@ func (c *rcComp) pxrRun(args []string) string {
 		c.mon = "deadline-poll"
 		return "pxr=deadline-poll"
 	}
-	if n := atomic.LoadInt32(&after); n > 1 {
-		c.mon = "afterclose"
-		return "pxr=afterclose=" + strconv.Itoa(int(n))
+	n, m := atomic.LoadInt32(&after), atomic.LoadInt32(&total)
+	verdict := "ok"
+	if n > 1 {
+		if where == "after" {
+			verdict = "reopened" // Subscribe after Close resets c.closed: code behaviour, not a failure
+		} else {
+			verdict = "afterclose"
+			c.mon = "afterclose"
+		}
 	}
-	return "pxr=ok"
+	return fmt.Sprintf("pxr=%s after=%d total=%d", verdict, n, m)
 }
